@@ -559,6 +559,19 @@ func c07OneTable(c *Ctx, idx int) {
 	v4base := [16]byte{0, 0, 0, 0, 0, 0, 0, 0, 0, 0, 0xff, 0xff, 10, 0, 0, 0}
 	v6base := [16]byte{0x20, 0x01, 0x0d, 0xb8}
 	fam := r.Intn(4) // 0 v4, 1 v6, 2/3 mixed
+	// the v6 universe of every third table starts a little below a /64 (or /32, /96) boundary, so
+	// that its ranges straddle the boundary: a range whose bounds differ in the upper 64 bits and
+	// whose lower 64 bits are "the wrong way round" (start's larger than end's)
+	if r.Intn(3) == 0 {
+		switch r.Intn(3) {
+		case 0: // 2001:db8:0:5:ffff:ffff:ffff:fXXX
+			v6base = [16]byte{0x20, 0x01, 0x0d, 0xb8, 0, 0, 0, 5, 0xff, 0xff, 0xff, 0xff, 0xff, 0xff, byte(0xfc + r.Intn(4)), byte(r.Intn(256))}
+		case 1: // 2001:db8:ffff:ffff:ffff:ffff:ffff:fXXX (carry through 96 bits)
+			v6base = [16]byte{0x20, 0x01, 0x0d, 0xb8, 0xff, 0xff, 0xff, 0xff, 0xff, 0xff, 0xff, 0xff, 0xff, 0xff, byte(0xfc + r.Intn(4)), byte(r.Intn(256))}
+		case 2: // 2001:db8::ffff:fXXX (a /96 boundary)
+			v6base = [16]byte{0x20, 0x01, 0x0d, 0xb8, 0, 0, 0, 0, 0, 0, 0, 0, 0xff, 0xff, byte(0xfc + r.Intn(4)), byte(r.Intn(256))}
+		}
+	}
 	pickBase := func() [16]byte {
 		switch {
 		case fam == 0:
@@ -742,6 +755,11 @@ func c07OneTable(c *Ctx, idx int) {
 	c.Ev.Count("tables", 1)
 	c.Ev.Count("ranges", int64(len(rs)))
 	c.Ev.Count("ranges_v4_written_as_v4_mapped", int64(nMappedPres))
+	for _, x := range rs {
+		if !bytes.Equal(x.s[:8], x.e[:8]) {
+			c.Ev.Count("ranges_straddling_a_64_bit_boundary", 1)
+		}
+	}
 	if injected {
 		c.Ev.Count("tables_with_injected_overlap", 1)
 	}
